@@ -283,7 +283,14 @@ def header_content(facts, res):
         raise AnalysisBroken("%s: %d loops filling the cells' index (1 confirmed by reading)" % (fn["qname"], len(fills)))
     f, x = fills[0]
     lo, hi, d = fm.loop_interval(f)
-    lhs_idx = re.search(r"getItem\((\w+)\)\.spaceIndex$", facts.ntext(kids(x)[0]))
+    # the record written: `viewer.getItem(i).spaceIndex`, directly or through a local reference bound to `viewer.getItem(i)`
+    lbase = strip(kids(strip(kids(x)[0]))[0]) if kids(strip(kids(x)[0])) else None
+    ldecls = {v["did"]: v for v in walk(f["c"][3]) if v.get("k") == "VarDecl"}
+    hops = 0
+    while lbase is not None and lbase.get("k") == "DeclRefExpr" and lbase.get("did") in ldecls and kids(ldecls[lbase["did"]]) and hops < 3:
+        lbase = strip(kids(ldecls[lbase["did"]])[0])
+        hops += 1
+    lhs_idx = re.search(r"getItem\((\w+)\)$", facts.ntext(lbase)) if lbase is not None else None
     rhs = facts.ntext(kids(x)[1])
     res.instance(R, "%s cells" % cls, facts.loc(x), "cell %s <- %s over [%s,%s]" % (lhs_idx.group(1) if lhs_idx else "?", rhs, lo, hi))
     p0 = fn["params"][0]["name"]
